@@ -1,4 +1,4 @@
-#!/bin/sh
+#!/bin/bash
 # tools/run_all.sh [quick|thorough] [jobs]
 # Run every claimed property's check against /repo's current tree, <jobs> at a time (default 2), and print one
 # summary line per property plus every VIOLATION / KNOWN-FINDING count. Logs: /verif/.run_all/<Cxx>.log (scratch,
@@ -16,7 +16,7 @@ n=0
 for c in $PROPS; do
   run_one "$c" &
   n=$((n+1))
-  if [ "$n" -ge "$JOBS" ]; then wait -n 2>/dev/null || wait; n=$((n-1)); fi
+  if [ "$n" -ge "$JOBS" ]; then wait -n; n=$((n-1)); fi
 done
 wait
 bad=0
